@@ -5,7 +5,7 @@
 (* action binds the logged fields and evaluates the property rules of       *)
 (* DESIGN.md Appendix B against the Ref layer.                              *)
 (***************************************************************************)
-EXTENDS TraceBase, Header, Codes
+EXTENDS TraceBase, Header, Codes, NameWire
 
 VARIABLES l          \* index of the next event to consume
 vars == <<l>>
@@ -114,6 +114,26 @@ TraceMatchClass ==
        Rule(l, "MatchMatrix", Ev.q[i][2] = MatchQClass(Ev.c, Ev.q[i][1]), <<"class", Ev.c, Ev.q[i], Ev.how>>)
 
 -----------------------------------------------------------------------------
+(* C06: one event = one buffer e.b, decoded by the crate at each start offset *)
+(* e.at[i]; e.r[i] = <<"ok", labels, next>> | <<"err">> | <<"panic", where>>  *)
+NameDecodeOK(b, at, r) ==
+  LET ref == RefDecodeName(b, at) IN
+  /\ r[1] = "ok" => /\ ref.ok /\ r[2] = ref.labels /\ r[3] = ref.next
+                     /\ ValidLabels(r[2])
+
+NameMustErrOK(b, at, r) == (~RefDecodeName(b, at).ok) => r[1] = "err"
+
+TraceNameDecode ==
+  /\ Ev.ev = "NameDecode"
+  /\ Len(Ev.at) = Len(Ev.r)
+  /\ \A i \in 1 .. Len(Ev.at) :
+       /\ Rule(l, "NoPanic", Ev.r[i][1] # "panic", <<"parse_name", Ev.at[i], Ev.r[i]>>)
+       /\ Rule(l, "NameRef", NameDecodeOK(Ev.b, Ev.at[i], Ev.r[i]),
+               <<"at", Ev.at[i], "got", Ev.r[i], "ref", RefDecodeName(Ev.b, Ev.at[i])>>)
+       /\ Rule(l, "NameMustErr", NameMustErrOK(Ev.b, Ev.at[i], Ev.r[i]),
+               <<"at", Ev.at[i], "got", Ev.r[i][1], "ref", RefDecodeName(Ev.b, Ev.at[i]).why>>)
+
+-----------------------------------------------------------------------------
 Init == l = 1
 
 Next == /\ l <= Len(Rec)
@@ -121,6 +141,7 @@ Next == /\ l <= Len(Rec)
         /\ \/ TraceHdrWords
            \/ TraceHdrBuilds
            \/ TraceFlagOps
+           \/ TraceNameDecode
            \/ TraceCodeConv \/ TraceMnemonics \/ TraceMatchType \/ TraceMatchClass
 
 Spec == Init /\ [][Next]_vars
